@@ -126,7 +126,7 @@ where
 
         // drop the rt, to prevent all async activity from happening.
         #[cfg(feature = "async")]
-        module.ctx.async_ext.write().rt.shutdown();
+        module.ctx.async_ext.write().shutdown();
 
         // Reset the internal state
         // Note that the module is not active, so it must be manually reactivated
